@@ -623,7 +623,7 @@ func (a *Analyzer) step(fr *frame, ins ssa.Instruction, st *State) []*State {
 		if !ok {
 			return nil
 		}
-		if a.OnStore != nil && fr.depth == 0 {
+		if a.OnStore != nil {
 			a.OnStore(fr.fn, x, st, a.load(st, p, x.Val.Type()), a.val(st, x.Val))
 		}
 		a.store(st, p, a.val(st, x.Val), x.Val.Type())
